@@ -348,6 +348,7 @@ pub fn run(sc: &Scenario, opts: &RunOptions) -> RunRecord {
             break;
         }
         steps += 1;
+        super::core::heartbeat();
         let bound = 20_000 + 400 * frames.len() as u64 + 8 * (full_len as u64 + rx_bytes);
         if steps > bound {
             hang = Some(Hang::StepBound { steps });
